@@ -121,7 +121,7 @@ class Program:
     def mro(s, cls):
         out = [cls]
         for b in s.classes[cls].bases:
-            if b in s.classes: out += s.mro(b)
+            if b in s.classes and b != cls: out += s.mro(b)      # `class Custom(generated.custom.Custom)`: the base of the same name is outside the unit
         return out
     def field_ty(s, cls, f):
         for c in s.mro(cls):
@@ -1169,6 +1169,8 @@ class Exec:
         if isinstance(n.value, ast.List) and not n.value.elts and isinstance(n.targets[0], ast.Name) and n.targets[0].id in lt:
             v = s.new_list(st, lt[n.targets[0].id], IntVal(0), lambda k: IntVal(0))
         else: v = s.ev(st, n.value)
+        if isinstance(v, SV) and v.ty == NONE and isinstance(n.targets[0], ast.Name) and n.targets[0].id in lt and lt[n.targets[0].id].kind == 'ref':
+            v = SV(v.t, lt[n.targets[0].id])       # `x = None` for a local declared (types(x=...)) to hold references
         for t in n.targets: s.assign(st, t, v)
         curc = s.spec.contracts.get(ctx.q)
         if curc is not None:
